@@ -145,8 +145,15 @@ def check(col, prog, tier, profile, fixture=None):
                     through = bool(Ic_.final_states)
                     for st_ in Ic_.final_states:
                         ce = [e for e in util.events_of(st_, "call") if (e.fn.get("resolved") or e.fn).get("def") == b.key]
-                        want_args = tuple(("param", i + 1, Ic_.names.get(i + 1)) for i in range(b.arg_count))
-                        through = through and len(ce) == 1 and tuple(ce[0].args) == want_args and util.ret_term(st_) == ce[0].res and cb_.arg_count == b.arg_count
+                        def same_operand(a_, i_):
+                            # the i-th operand itself, or (a helper working on the raw bytes) its only field, by value or by reference
+                            p_ = ("param", i_ + 1, Ic_.names.get(i_ + 1))
+                            forms = [p_, ("proj", 0, p_), ("ref", ("field", ("deref", p_), 0)), ("load", ("m0",), ("field", ("deref", p_), 0)), ("ref", ("field", ("local", i_ + 1), 0)), ("ref", ("local", i_ + 1)), ("load", ("m0",), ("deref", p_)), ("ref", ("deref", p_))]
+                            return a_ in forms
+
+                        rt_ = util.ret_term(st_)
+                        through = through and len(ce) == 1 and len(ce[0].args) == b.arg_count and all(same_operand(a_, i_) for i_, a_ in enumerate(ce[0].args)) and cb_.arg_count == b.arg_count
+                        through = through and (rt_ == ce[0].res or (rt_[0] == "agg" and tuple(rt_[2]) == (ce[0].res,)))
                     fronts.append((cb_, through))
                 if len(fronts) == 1 and fronts[0][1]:
                     fb_ = fronts[0][0]
@@ -244,7 +251,9 @@ def check(col, prog, tier, profile, fixture=None):
             imp_ = crate.impl_of(b_)
             if imp_ is not None and (imp_.get("trait") or "").split("::")[-1] == tr_ and b_.name == nm_ and imp_["self_ty"] == "f80":
                 # the by-value operator is the one specified; reference forms added beside it are extra API
-                byref = "&f80>" in b_.path
+                import re as _re
+
+                byref = bool(_re.search(r"&('\w+ )?f80>", b_.path))
                 if ob is None or not byref:
                     ob = b_
         if ob is None:
